@@ -130,7 +130,9 @@ def corpus(args):
                 caught = json.load(open(cf)) if os.path.exists(cf) else []
                 # prefer different fingerprints
                 picked, seen = [], set()
-                for c in caught:
+                already = {(x['seed'], x.get('mode')) for x in out.get(prop, [])}
+                fresh_first = [c for c in caught if (c['seed'], c['mode']) not in already] + [c for c in caught if (c['seed'], c['mode']) in already]
+                for c in fresh_first:
                     key = tuple(c['fingerprints'][:1])
                     if key in seen and len(picked) >= args.per:
                         continue
